@@ -76,7 +76,7 @@ def build():
                 invariant index < 64, *vring_state == vring.st, vring.st.kick == Some(*fd), thread_index_next <= self.queues_per_thread@.len(),
             """ + HANDLER_FACTS + """
                 decreases self.queues_per_thread@.len() - thread_index_next,""")],
-                   hints=[(r'let evt_idx = ', """lemma_evt_idx(queues_mask, index as int); assert(is_owner(self.queues_per_thread@, index as int, thread_index as int));""")],
+                   hints=[(r'if shifted_queues_mask & 1u64 == 1u64 \{', """lemma_evt_idx(queues_mask, index as int); assert(is_owner(self.queues_per_thread@, index as int, thread_index as int));""", "after")],
                    contract="""
         requires index < 64,   // A-NQ64
             // argument contracts of the workers' register_event / unregister_event (rank.rs): a call is accepted only on the owning worker
